@@ -295,6 +295,10 @@ pub fn run(ctx: &mut Ctx) {
     ctx.run_prop(&AddSub, &add_case, t.pick(1_000_000, 30_000_000));
     ctx.run_prop(&DiffSub, &diff_case, t.pick(1_000_000, 30_000_000));
     ctx.run_prop(&MirrorSub, &mirror_case, t.pick(300_000, 6_000_000));
+    // until / since with smallestUnit, roundingIncrement and roundingMode against the exact model (C08's
+    // RoundRelativeDuration reference; a third of these cases are PlainDate pairs): a rounding step that is skipped or
+    // carried wrongly keeps the since / until mirror intact and is only visible against a model
+    ctx.run_prop(&crate::props::c08::UntilSub, &crate::props::c08::until_case, t.pick(300_000, 6_000_000));
     // exhaustive block
     let lo = to_days(1999, 12, 1);
     let hi = to_days(2001, 3, 31);
@@ -319,6 +323,7 @@ pub fn replay(ctx: &mut Ctx, sub: &str, case: &Value) -> bool {
         "add" => ctx.replay_case(&AddSub, case),
         "until" => ctx.replay_case(&DiffSub, case),
         "since-mirror" => ctx.replay_case(&MirrorSub, case),
+        "until-rounded" => ctx.replay_case(&crate::props::c08::UntilSub, case),
         _ => false,
     }
 }
